@@ -760,6 +760,9 @@ func c02wRunHistory(rep *kit.Report, parent string, c c02wCase, fullFrom int, st
 	// seen again (in a deployed store a data file name is never reused)
 	c02wDirSeq++
 	dir := filepath.Join(parent, fmt.Sprintf("h%07d", c02wDirSeq))
+	if kit.Getenv("VERIF_C02_REUSE_DIR", "") != "" { // development aid: one directory for all histories (comparison runs)
+		dir = filepath.Join(parent, "reused")
+	}
 	_ = os.RemoveAll(dir)
 	c.Knobs.apply()
 	c02wInstallTap()
